@@ -24,6 +24,7 @@ ASSUMPTIONS = ["the reference model vf/ref/verbs.py is right where it is not per
                "operands outside the closed universe classes (rank > 3, integers beyond 2**63) are not explored"]
 MIN_COUNTS = {"quick": {"nontrivial": 30000, "verbs_with_100_in_domain": 46}, "thorough": {"nontrivial": 300000, "verbs_with_100_in_domain": 46}}
 CASE_TIMEOUT = 600
+MEM_LIMIT_GB = 6
 MIN_SHARD = 2
 BATCH = 300
 
